@@ -341,34 +341,99 @@ def run_model(lines, feats, timeout=1800):
     return _run_shards([DRIVER, ",".join(feats)], lines, NPROC, timeout)
 
 
+HANG_BUDGET = 3
+
+
 def run_impl(lines, feats, release=False, timeout=1800, extra_features=()):
-    """The harness catches unwinding panics itself; a batch in which the process dies (abort, stack overflow, signal) loses
-    its buffered answers, so the unanswered lines are re-run by bisection: halves that complete deliver their answers, a
-    half that dies is split again, down to the single line that kills the process (`abort rc=..` / `hang`).  Every line
-    ends up with an answer of its own, so a replay always names an input that fails by itself."""
+    """The harness catches unwinding panics itself.  A case that does not return is ended by the harness's own watchdog
+    (VERIF_LINE_TIMEOUT seconds, default 20): it delivers the answers collected so far, answers `hang` for that line and
+    exits with code 97; the rest of the shard is then run again.  After HANG_BUDGET hangs in one call the lines not yet
+    run are answered `not-run` (a hang is already a violation; every further one costs the full time limit).
+    A batch in which the process dies otherwise (abort, stack overflow, signal) loses its buffered answers, so the
+    unanswered lines are re-run by bisection: halves that complete deliver their answers, a half that dies is split again,
+    down to the single line that kills the process (`abort rc=..`).  Every line ends up with an answer of its own, so a
+    replay always names an input that fails by itself."""
     from concurrent.futures import ThreadPoolExecutor
+    import threading
 
     exe = harness_path(list(feats) + list(extra_features), release)
-    out = _run_shards([exe], lines, NPROC, timeout)
-    if "__errors__" not in out:
+    if not lines:
+        return {}
+    hangs = [0]
+    lock = threading.Lock()
+
+    def parse(so, res):
+        for line in so.splitlines():
+            i = line.find("\t")
+            if i > 0:
+                res[line[:i]] = line[i + 1 :]
+
+    def shard(ls):
+        """(answers, died?) of one shard; continues after each watchdog exit while the budget lasts"""
+        res = {}
+        todo = ls
+        while todo:
+            try:
+                p = subprocess.run([exe], input="\n".join(todo) + "\n", capture_output=True, text=True, timeout=timeout, env=ENV)
+                rc, so = p.returncode, p.stdout
+            except subprocess.TimeoutExpired:
+                rc, so = 124, ""
+            if rc == 0:
+                parse(so, res)
+                return res, False
+            if rc == 97:
+                parse(so, res)
+                with lock:
+                    hangs[0] += 1
+                    spent = hangs[0] >= HANG_BUDGET
+                rest = [l for l in todo if l.split("\t", 1)[0] not in res]
+                if spent:
+                    for l in rest:
+                        res[l.split("\t", 1)[0]] = "not-run (hang budget spent)"
+                    return res, False
+                if len(rest) == len(todo):      # no progress: cannot happen, the hung line is answered
+                    return res, True
+                todo = rest
+                continue
+            return res, True
+        return res, False
+
+    nshards = max(1, min(NPROC, (len(lines) + 199) // 200))
+    shards = [lines[i::nshards] for i in range(nshards)]
+    out = {}
+    died = False
+    with ThreadPoolExecutor(max_workers=nshards) as ex:
+        for res, d in ex.map(shard, shards):
+            out.update(res)
+            died = died or d
+    if not died:
         return out
     missing = [l for l in lines if l.split("\t", 1)[0] not in out]
 
     def batch(ls):
         """answers of the lines of ls, bisecting where the process dies"""
+        with lock:
+            if hangs[0] >= HANG_BUDGET:
+                return {l.split("\t", 1)[0]: "not-run (hang budget spent)" for l in ls}
         try:
-            p = subprocess.run([exe], input="\n".join(ls) + "\n", capture_output=True, text=True, timeout=60 + len(ls) // 200, env=ENV)
+            p = subprocess.run([exe], input="\n".join(ls) + "\n", capture_output=True, text=True, timeout=120 + len(ls) // 200, env=ENV)
             rc, so = p.returncode, p.stdout
         except subprocess.TimeoutExpired:
             rc, so = 124, ""
         res = {}
-        if rc == 0:
-            for line in so.splitlines():
-                i = line.find("\t")
-                if i > 0:
-                    res[line[:i]] = line[i + 1 :]
+        if rc == 0 or rc == 97:
+            parse(so, res)
+            if rc == 97:
+                with lock:
+                    hangs[0] += 1
+                rest = [l for l in ls if l.split("\t", 1)[0] not in res]
+                if rest and len(rest) < len(ls):
+                    res.update(batch(rest))
             return res
         if len(ls) == 1:
+            with lock:
+                if rc == 124:
+                    hangs[0] += 1
             return {ls[0].split("\t", 1)[0]: ("hang" if rc == 124 else f"abort rc={rc}")}
         mid = len(ls) // 2
         res.update(batch(ls[:mid]))
